@@ -117,6 +117,27 @@ def homogeneity(rep, cfg):
            where=cfg.where(p))
 
 
+def coset_invariance(rep, cfg):
+    """"either curve point of its two-element coset": P and P + (0,-1) = (-X : -Y : Z : T) are the same group element, so the encoder's term must
+    be unchanged under (X, Y) -> (-X, -Y).  Decided on the code's own term (no specification involved) with the normaliser in which
+    sign(-u) = not sign(u), i.e. abs(-u) = abs(u): exact away from the zeros of the abs-tested quantities, where both sides are 0 anyway."""
+    from . import poly as P_
+    p = cfg.p_encode(rep)
+    if p is None:
+        return
+    out = cfg.run(p)
+    X, Y, Z, T = C.element_coords_of_param(cfg, mk("param", "self"))
+    fx, fy = mk("sym", "coset_x"), mk("sym", "coset_y")
+    # substitute through fresh symbols so that X -> -X does not rewrite the -X just introduced
+    t1 = Tm.subst(out.value, {X: fx, Y: fy})
+    flipped = Tm.subst(t1, {fx: mk("neg", X), fy: mk("neg", Y)})
+    NS = P_.Norm(K.Q, sign_odd=True)
+    r = NS.add(NS.poly(flipped), NS.poly(out.value), -1)
+    rep.ob("COSET/%s/encode" % cfg.name, not r and not out.unmodelled,
+           "encode(-X : -Y : Z : T) must equal encode(X : Y : Z : T) (the two curve points of one group element); remainder: %s" % NS.show(r, 3),
+           where=cfg.where(p), sample={"obligation": "COSET/%s/encode" % cfg.name, "remainder_terms": len(r)})
+
+
 # ---- FUNNEL --------------------------------------------------------------------------------------------
 
 def compress_summaries(cfg, rep):
@@ -272,7 +293,7 @@ def run(rep, facts, tier):
         "(for every representative and scaling at once). HOMOG: weights of the extracted polynomial under projective scaling - a "
         "spec-independent necessary condition for scaling invariance. FUNNEL: each encoding entry point, enumerated from the impl table, "
         "observes self only through bytes(encode(self)).")
-    rep.rules += ["TERM", "HOMOG", "FUNNEL", "SIB"]
+    rep.rules += ["TERM", "HOMOG", "COSET (invariance under (X,Y) -> (-X,-Y))", "FUNNEL", "SIB"]
     rep.trusted += ["rustc type checker / trait resolution", "summary table", "spec/decaf_spec.py"]
     rep.assumptions += ["the specified encoder is constant on cosets and injective on the quotient group (Decaf theorem)", "ISQRT contract (C09), field ops (C10)"]
     cfgs = {k: Cfg(f) for k, f in facts.items() if k in ("A", "M", "R")}
@@ -283,6 +304,7 @@ def run(rep, facts, tier):
         c01.check_encode_term(rep, cfg)
         c01.check_compress_funnel(rep, cfg)
         homogeneity(rep, cfg)
+        coset_invariance(rep, cfg)
         c01.isqrt_zero_cases(rep, cfg)
         n += len(funnel(rep, cfg))
     if "R" in cfgs:
